@@ -50,9 +50,8 @@ def C11_full (cls : SolverClass) : Prop :=
 -- below (`C11_cacheless_refines`, `C11_solver_refines`) use the relativised forms (`Reg`, `SimpOn`, `BuildOn`, `PickOk` —
 -- `PickValid` as stated asks a duplicate-free choice from lists WITH duplicates and is unsatisfiable), and
 -- `C11_hypotheses_consistent` / `C11_solver_hypotheses_consistent` show those are jointly satisfiable.
--- NOT proved of `C11_full`: the classes other than SolverCacheless and Solver; `track=True`; `reuse_z3_solver`; the calls
--- `batch_eval` (proved through ModelCacheMixin down to Z3, `C11_modelcache_batch_eval` + `full_batchEval_spec`; the
--- reassembly of concrete components in ConcreteHandlerMixin.batch_eval is not), `unsat_core` and pickling in a history.
+-- NOT proved of `C11_full`: the classes other than SolverCacheless and Solver; `track=True`; `reuse_z3_solver`; the call
+-- `unsat_core`; for SolverCacheless also `batch_eval` and pickling inside a history (both are in scope for `Solver`).
 
 /-- `_satisfiable` over an exact oracle is exact and leaves the solver object's frames alone -/
 theorem C11_satisfiable_exact {E : Env} (hE : OracleExact E) {hook : PModel → M Unit} {A : List ZCon}
@@ -231,9 +230,9 @@ theorem C11_cache_solution_fast {RE : Exp → Prop} {E : Env} {U : List Con} {se
 /-! ### the caching class `Solver`, whole histories over trees of branched solvers -/
 
 /-- **Solver refines the specification.** Start from a fresh `Solver()` (no tracking, Z3 solver not reused) and make ANY
-sequence of add / satisfiable / eval / min / max / solution / is_true / is_false / simplify / downsize / branch calls on any of
-the solvers alive (`HistOkS`: the solver called exists; added constraints from the registry `R`, queried expressions from
-the registry `RE`).  Under the hypotheses `SolverHyps` (those of the cacheless theorem, plus: `EvalComplete` — the models of
+sequence of add / satisfiable / eval / batch_eval / min / max / solution / is_true / is_false / simplify / downsize / branch /
+pickle-round-trip calls on any of the solvers alive (`HistOkS`: the solver called exists; added constraints from the registry
+`R`, queried symbolic expressions from the registry `RE`).  Under the hypotheses `SolverHyps` (those of the cacheless theorem, plus: `EvalComplete` — the models of
 `sat` answers determine the registered expressions —, `PickOk`, `TrivOk`, `BuildOn`, `SimpVars`), every answer of the model —
 the complete mixin stack composed from the generated MRO, model cache, satisfiability cache and constraint expansion
 included, the solvers of the tree sharing Z3 objects as `_copy` makes them and inheriting each other's caches — other than the
